@@ -136,6 +136,14 @@ func (l *Loader) loadWithContent(path, content string, visited map[string]bool) 
 		})
 	}
 
+	result, includeErrors := l.resolveIncludes(path, journal, visited)
+	return result, append(errors, includeErrors...)
+}
+
+// resolveIncludes follows the include directives of an already parsed journal.
+func (l *Loader) resolveIncludes(path string, journal *ast.Journal, visited map[string]bool) (*ResolvedJournal, []LoadError) {
+	var errors []LoadError
+
 	result := NewResolvedJournal(journal)
 	visited[path] = true
 
@@ -200,8 +208,21 @@ func (l *Loader) loadSingleInclude(
 	cached, ok := l.cache[includePath]
 	l.mu.RUnlock()
 	if ok {
+		// The cache saves reading and parsing the file; its own includes are still followed
+		// (and the file is marked visited), exactly as for a file read from disk.
+		if len(visited) >= limits.MaxIncludeDepth {
+			return append(errors, LoadError{
+				Kind:    ErrorCycleDetected,
+				Path:    includePath,
+				Message: fmt.Sprintf("include depth limit exceeded (%d)", limits.MaxIncludeDepth),
+			})
+		}
+		subResult, subErrors := l.resolveIncludes(includePath, cached, visited)
+		errors = append(errors, subErrors...)
 		result.Files[includePath] = cached
 		result.FileOrder = append(result.FileOrder, includePath)
+		maps.Copy(result.Files, subResult.Files)
+		result.FileOrder = append(result.FileOrder, subResult.FileOrder...)
 		return errors
 	}
 
